@@ -28,6 +28,7 @@ import (
 	"github.com/hashicorp/go-hclog"
 	"github.com/hashicorp/go-plugin/internal/cmdrunner"
 	"github.com/hashicorp/go-plugin/internal/grpcmux"
+	"github.com/hashicorp/go-plugin/internal/verifhook"
 	"github.com/hashicorp/go-plugin/runner"
 	"google.golang.org/grpc"
 )
@@ -534,6 +535,7 @@ func (c *Client) Kill() {
 		client, err := c.Client()
 		if err == nil {
 			err = client.Close()
+			verifhook.Point("client.kill.after-close")
 
 			// If there is no error, then we attempt to wait for a graceful
 			// exit. If there was an error, we assume that graceful cleanup
@@ -737,6 +739,7 @@ func (c *Client) Start() (addr net.Addr, err error) {
 	if err != nil {
 		return nil, err
 	}
+	verifhook.Point("client.start.after-launch")
 
 	// Make sure the command is properly cleaned up if there is an error
 	defer func() {
